@@ -119,18 +119,34 @@ def _discharge(ctx, h, case, deadline, rng, out_paths, path_id, emit):
     prec = dict(path=path_id, twin=tw, notes=[(str(n)[:100], bool(d)) for n, d in ctx.path_notes],
                 n_obl=len(h.obls), exc=None)
     results = []
+    if tw == "unsat":
+        # infeasible under assumptions stated after the branch: nothing to decide on this path
+        prec["t"] = round(time.time() - t0, 2)
+        emit(("path", prec))
+        return
     # sentinel
     sent = None
     if case.sentinel and h.sentinels and tw == "sat":
-        nm, k, claim = h.sentinels[0]
-        r, m = core.check_sat(facts + [z3.Not(claim)], min(case.timeout, 20) * 1000)
-        if r != "sat":
-            for pins in pinned_queries(ctx, rng, 4):
-                r2, m2 = core.check_sat(facts + pins + [z3.Not(claim)], 5000)
-                if r2 == "sat":
-                    r = "sat"
+        # mutation sentinel: the claim with a 1 permille perturbed right-hand side must be refutable
+        # (unless that right-hand side is identically zero)
+        for (nm, k, claim, rhs_nz) in h.sentinels:
+            r, m = core.check_sat(facts + [z3.Not(claim)], min(case.timeout, 20) * 1000)
+            if r != "sat":
+                for pins in pinned_queries(ctx, rng, 4):
+                    r2, m2 = core.check_sat(facts + pins + [z3.Not(claim)], 5000)
+                    if r2 == "sat":
+                        r = "sat"
+                        break
+            if r == "sat":
+                sent = dict(name=nm, idx=k, result="sat")
+                break
+            if r == "unsat":
+                rz, _ = core.check_sat(facts + [rhs_nz], min(case.timeout, 20) * 1000)
+                if rz == "sat":
+                    sent = dict(name=nm, idx=k, result="unsat")   # perturbed claim valid although rhs != 0: encoder problem
                     break
-        sent = dict(name=nm, idx=k, result=r)
+        if sent is None:
+            sent = dict(name=None, idx=None, result="none (all candidate right-hand sides identically zero or undecided)")
     prec["sentinel"] = sent
     for o in h.obls:
         rec = dict(case=case.id, path=path_id, name=o.name, idx=o.idx, kind=o.kind, info=o.info)
@@ -440,6 +456,7 @@ def run_property(mod, tier, seed, only=None):
     sentinels_ok = sentinels_bad = 0
     stats_tot = dict(paths=0, infeasible=0, cut=0)
     replayed = reproduced = 0
+    pruned_late = 0
     os.makedirs(os.path.join(ROOT, "replays", prop), exist_ok=True)
     for cid, R in results.items():
         c = R["case"]
@@ -458,6 +475,8 @@ def run_property(mod, tier, seed, only=None):
             if p.get("exc"):
                 exc_paths.append(f"{cid} path {p['path']}: {p['exc']}")
                 harness_errors.append(f"{cid} path {p['path']}: exception escaped the case: {p['exc']}\n{p.get('tb','')[-600:]}")
+            elif p["twin"] == "unsat":
+                pruned_late += 1
             elif p["twin"] != "sat":
                 vacuous.append(f"{cid} path {p['path']}: twin {p['twin']}")
             s = p.get("sentinel")
@@ -468,6 +487,8 @@ def run_property(mod, tier, seed, only=None):
                     sentinels_bad += 1
                     harness_errors.append(f"{cid}: mutation sentinel {s['name']}[{s['idx']}] came back unsat")
         vac_paths = {p["path"] for p in R["paths"] if not p.get("exc") and p["twin"] != "sat"}
+        if R["paths"] and all((not p.get("exc")) and p["twin"] == "unsat" for p in R["paths"]):
+            harness_errors.append(f"{cid}: every path is infeasible under the case's assumptions (vacuous case)")
         sat_groups = {}
         for o in R["obls"]:
             n_obl += 1
@@ -537,7 +558,7 @@ def run_property(mod, tier, seed, only=None):
             checker_cmd=f"./check {prop} --tier {tier}",
             trusted_base=meta.get("trusted_base", []) + ["z3 %s (nlsat)" % z3.get_version_string(), "symx scalar/shim layer (validated by ./check selftest)",
                                                           "real-arithmetic semantics of the Python source (IEEE rounding outside the claim)"],
-            cases=len(cases), paths_explored=paths_total, paths_pruned_infeasible=stats_tot["infeasible"], paths_cut=stats_tot["cut"],
+            cases=len(cases), paths_explored=paths_total, paths_pruned_infeasible=stats_tot["infeasible"] + pruned_late, paths_cut=stats_tot["cut"],
             vacuous_paths=vacuous, queries=queries, solver_time_s=round(solver_s, 1),
             functions_encoded=sorted(functions), bounds=meta.get("bounds", ""),
             sentinels_sat=sentinels_ok, models_replayed=replayed, models_reproduced=reproduced,
@@ -555,6 +576,8 @@ def run_property(mod, tier, seed, only=None):
     json.dump(ev, open(os.path.join(ROOT, "evidence", f"{prop}.json"), "w"), indent=1, default=str)
     print(f"[{prop}] attempted={n_obl} unsat={n_unsat} trivial={n_triv} sat={n_sat} inconclusive={len(inconclusive)} "
           f"paths={paths_total} vacuous={len(vacuous)} queries={queries} solver={solver_s:.1f}s wall={wall:.1f}s", flush=True)
+    slow = sorted(((o.get("t", 0), cid, o["name"], o["idx"], o["status"]) for cid, R in results.items() for o in R["obls"]), reverse=True)[:3]
+    print("  slowest obligations:", [(t, c, n, i, st) for (t, c, n, i, st) in slow if t > 1.0])
     for i in inconclusive[:12]:
         print("  INCONCLUSIVE", i)
     for kid, (kf, cid, name, rpath) in known_hits.items():
